@@ -1466,6 +1466,7 @@ pub mod verif_hooks {
     pub fn expand_alias(sh: &Shell, tokens: &mut types::Tokens) { super::expand_alias(sh, tokens) }
     pub fn expand_home(tokens: &mut types::Tokens) { super::expand_home(tokens) }
     pub fn env_in_token(token: &str) -> bool { super::env_in_token(token) }
+    pub fn expand_env_once(sh: &Shell, token: &str) -> String { super::expand_env_once(sh, token) }
     pub fn should_do_dollar_command_extension(line: &str) -> bool { super::should_do_dollar_command_extension(line) }
     pub fn do_command_substitution_for_dollar(sh: &mut Shell, tokens: &mut types::Tokens) { super::do_command_substitution_for_dollar(sh, tokens) }
     pub fn do_command_substitution_for_dot(sh: &mut Shell, tokens: &mut types::Tokens) { super::do_command_substitution_for_dot(sh, tokens) }
